@@ -100,14 +100,24 @@ def main():
     f = open(out, 'w')
     stats = {'executions': 0, 'streams': 0}
     n = 0
-    for it in range(12 if quick else 250):
-        cls = ['plain', 'cmdlike', 'emptybody', 'oversize'][it % 4]
-        units, cfg = build_stream(rnd, cls)
+    # The over-limit family is the same fixed list of streams and segmentations in every run (independent of the seed;
+    # the thorough list extends the quick one): the known finding D15 is identified by the fingerprint of each of its
+    # bundles, so that any other way of depending on the segmentation is still reported.
+    nover = 48 if quick else 400
+    work = [('seeded', it) for it in range(9 if quick else 190)] + [('fixed', j) for j in range(nover) if j % nshards == shard]
+    for kind_, it in work:
+        if kind_ == 'fixed':
+            cls = 'oversize'
+            rnd_ = random.Random(424242 + it)
+        else:
+            cls = ['plain', 'cmdlike', 'emptybody'][it % 3]
+            rnd_ = rnd
+        units, cfg = build_stream(rnd_, cls)
         total = sum(len(u[2]) for u in units)
         ref = run(units, cfg, None)
         runs = [proj(ref)]
-        segs = [list(range(1, total)), [], sorted(rnd.sample(range(1, total), min(total - 1, rnd.randint(1, 6)))),
-                sorted(rnd.sample(range(1, total), min(total - 1, rnd.randint(5, 40))))]
+        segs = [list(range(1, total)), [], sorted(rnd_.sample(range(1, total), min(total - 1, rnd_.randint(1, 6)))),
+                sorted(rnd_.sample(range(1, total), min(total - 1, rnd_.randint(5, 40))))]
         # cut exactly at / around unit boundaries too
         bounds, p = [], 0
         for u in units[:-1]:
@@ -124,7 +134,12 @@ def main():
         nunits = len(units)
         nfinal = sum(1 for e in ref if e['t'] == 'reply') - 1
         ev = ref + [{'t': 'bundle', 'runs': runs, 'units_answered': nfinal == nunits or any(e['t'] == 'reply' and e['code'] in (421, 221) for e in ref)}]
-        f.write(json.dumps({'id': shard + n * nshards, 'cls': cls, 'cfg': {'stall': 0, 'deadline': 0}, 'ev': ev}, separators=(',', ':')) + '\n')
+        rec = {'id': shard + n * nshards, 'cls': cls, 'cfg': {'stall': 0, 'deadline': 0}, 'ev': ev}
+        if kind_ == 'fixed':
+            import hashlib
+            rec['fp'] = hashlib.sha1(json.dumps([it, runs], sort_keys=True).encode()).hexdigest()[:12]
+            rec['fixed'] = it
+        f.write(json.dumps(rec, separators=(',', ':')) + '\n')
         n += 1
     f.write(json.dumps({'summary': stats}) + '\n')
     f.close()
